@@ -1,6 +1,6 @@
 ENGINES = [
     {'name': 'X', 'path': 'lib/xworker.py', 'kind_free_text': 'CrossHair 0.0.110 symbolic execution of the real Python functions (z3 decides every branch), one OS process per condition, vacuity twin per condition, plain-CPython replay of every counterexample',
-     'serves_properties': ['C01', 'C02', 'C04', 'C05', 'C06', 'C08', 'C09', 'C10', 'C11', 'C13', 'C14', 'C15', 'C16', 'C17', 'C18', 'C19', 'C20']},
+     'serves_properties': ['C01', 'C02', 'C04', 'C05', 'C06', 'C08', 'C09', 'C10', 'C11', 'C12', 'C13', 'C14', 'C15', 'C16', 'C17', 'C18', 'C19', 'C20']},
     {'name': 'Z', 'path': 'lib/zworker.py', 'kind_free_text': 'z3 sequence-theory queries over SHA-1 pre-image terms recorded by executing the real digest code on symbolic strings (lib/zsym.py); sat models replayed on the real functions with the real hashlib',
      'serves_properties': ['C02', 'C03', 'C07']},
 ]
@@ -176,5 +176,16 @@ CLAIMS = {
         design_ref='DESIGN.md section 4, C04',
         note='Trusted: the uncached reference is the same real code with the two reuse points disabled. Outside: class / include / default.yaml / layer edits, tool and plugin-state touches, projects beyond the generated family, '
              'cache key collisions of the on-disk caches (sha1 / stat granularity).'),
+    'C12': dict(
+        engine='X',
+        technique='CrossHair+z3 enumeration of histories (recipe SCM edits, upstream commits, user edits, invocations) through real in-process bob dev / bob dev --clean-checkout / bob clean -s [-v] / bob clean --attic '
+                  'with the real GitScm code driving the real git binary on local upstream repositories; checkout of the final specification by the same code in an empty project as reference',
+        text='git SCMs only. For 8 initial specifications (branch / tag / commit / commit on branch, with or without a second SCM) and the history families listed in the evidence (quick ~630 histories of 2-3 steps out of 22 '
+             'step kinds followed by a final bob dev; thorough ~7700 incl. all 2-step histories): (no loss) every dirty edit of a tracked file, untracked file and local commit (reachable from a ref or HEAD, or its content in a '
+             'work tree) that existed below the project before a Bob invocation still exists afterwards, in place or in the attic, whatever Bob answered; (convergence) while the user touched nothing, bob dev succeeds and the '
+             'source workspace without .git equals a fresh checkout of the final specification.',
+        design_ref='DESIGN.md section 4, C12',
+        note='Trusted: the git binary (environment, executed natively), the harness oracle. Outside: url and import SCMs, svn/cvs, nested SCM directories, upstream rewinds / moved tags, submodules, --force, release mode, '
+             'layers (bob layers update), histories longer than the bound. Process creation is serialised in this sandbox (~150/s), which bounds the number of histories per run.'),
 }
 NOT_APPLICABLE = {}
